@@ -555,6 +555,9 @@ pub fn exec(song: &mut Song, tokens: &Vec<Token>) -> bool {
                     None => { runtime_error(song, "[SYSTEM ERROR][DefArray] variable name is empty"); pos += 1; continue; },
                     Some(var_name) => {
                         let val = exec_value(song, &t.children.clone().unwrap_or(vec![]));
+                        // `ARRAY A=(5)` reads as a parenthesised value: it is a one-element array
+                        let has_init = t.children.as_ref().map_or(false, |c| c.len() > 0);
+                        let val = if val.is_array() || !has_init { val } else { SValue::from_vec(vec![val]) };
                         song.variables_insert(var_name, val);
                     }
                 }
